@@ -53,8 +53,22 @@ def shards(tier, seed):
 _TMP = None
 
 
+_SELECTIONS: dict = {}
+
+
 def outcome_of(text, want=None, path_bytes_hex=None) -> dict:
-    sel = harness.pairs([tuple(p) for p in want]) if want is not None else None
+    # one list object per distinct selection, handed to every parse that uses this selection (as a client would keep its
+    # own `want` variable around); the library must leave it as it found it
+    sel = None
+    if want is not None:
+        key = (threading.get_ident(), json.dumps(want))
+        sel = _SELECTIONS.get(key)
+        expect = harness.pairs([tuple(p) for p in want])
+        if sel is None:
+            sel = _SELECTIONS[key] = list(expect)
+        elif sel != expect:
+            return {"ok": False, "err": ["SelectionMutated", f"the caller's want_tracks list was changed by an earlier parse: now {len(sel)} of {len(expect)} pairs"],
+                    "logs": []}
     if path_bytes_hex is None:
         out = harness.parse(text, sel)
     else:
